@@ -786,6 +786,16 @@ def c08_cases(base, rng, budget=None):
                      onl(lambda l, i=i: setattr(l.data[i], "type_name", an_enum.name)))
             edit("data-type-is-message-header", ["BadLevelHeader"], "%s type=messageHeader (no length)" % d.name,
                  onl(lambda l, i=i: setattr(l.data[i], "type_name", base.header)))
+            # a composite that is (validly) used as a group dimensionType elsewhere is still not a data header
+            for dn in sorted(used_dims(base))[:2]:
+                dimc = base.find(dn)
+                if dimc is not None and "length" not in [m.name.lower() for m in dimc.members]:
+                    edit("data-type-is-group-dimension", ["BadLevelHeader"],
+                         "%s type=%s (a group dimensionType without length/varData)" % (d.name, dn),
+                         onl(lambda l, i=i, dn=dn: setattr(l.data[i], "type_name", dn)))
+                    edit("data-type-is-group-dimension-other-case", ["BadLevelHeader"],
+                         "%s type=%s" % (d.name, dn.swapcase()),
+                         onl(lambda l, i=i, dn=dn: setattr(l.data[i], "type_name", dn.swapcase())))
             kw = rng.choice(KEYWORDS)
             edit("name-keyword", ["InvalidName"], "data %s renamed to %r" % (d.name, kw),
                  onl(lambda l, i=i: setattr(l.data[i], "name", kw)))
